@@ -472,8 +472,9 @@ Section Clients.
     | Some cur =>
         if ctype_eqb (client_type cur) (client_type cs) then Err
         else
-          (* HEAD: the NEW client state initialises; pinned commit: the old one did *)
-          st1 <- initialize_gen old (set_client st cs) (if old then cur else cs) kst ;;
+          (* HEAD: the client store is cleared and the NEW client state initialises; pinned commit: the store was
+             kept and the OLD client state initialised *)
+          st1 <- initialize_gen old (set_client (if old then st else empty_store) cs) (if old then cur else cs) kst ;;
           Ok (if negb old && is_tss_cons kst then st1 else set_cons st1 (latest_height cs) kst)
     end.
 
@@ -487,20 +488,28 @@ Section Clients.
     end.
   Definition xset (s : xstate) (chain : bytes) (v : cstore) : xstate := (chain, v) :: s.
 
+  (** keeper.validateConsensusType (HEAD only): the consensus state must be of the proposed client's type. *)
+  Definition cons_type_ok (old : bool) (c : client_state) (k : cons_state) : outcome unit :=
+    if old then Ok tt
+    else match cons_type k with Some t => if ctype_eqb t (client_type c) then Ok tt else Err | None => Err end.
+
   (** keeper.Handle*Client + the handler's event (GetLatestHeight().String() on a value height). *)
   Definition handle_xprop_gen (old : bool) (s : xstate) (p : xprop) : outcome xstate :=
     match p with
     | PCreate _ _ chain cs kst =>
         match c_client (xget s chain) with
         | Some _ => Err
-        | None => c <- unpack cs ;; k <- unpack kst ;; st' <- create_client old (xget s chain) c k ;; Ok (xset s chain st')
+        | None => c <- unpack cs ;; k <- unpack kst ;; _ <- cons_type_ok old c k ;;
+                  st' <- create_client old (xget s chain) c k ;; Ok (xset s chain st')
         end
     | PUpgrade _ _ chain cs kst =>
-        c <- unpack cs ;; k <- unpack kst ;; st' <- upgrade_client old (xget s chain) c k ;; Ok (xset s chain st')
+        c <- unpack cs ;; k <- unpack kst ;; _ <- cons_type_ok old c k ;;
+        st' <- upgrade_client old (xget s chain) c k ;; Ok (xset s chain st')
     | PToggle _ _ chain cs kst =>
         match c_client (xget s chain) with
         | None => Err
-        | Some _ => c <- unpack cs ;; k <- unpack kst ;; st' <- toggle_client old (xget s chain) c k ;; Ok (xset s chain st')
+        | Some _ => c <- unpack cs ;; k <- unpack kst ;; _ <- cons_type_ok old c k ;;
+                    st' <- toggle_client old (xget s chain) c k ;; Ok (xset s chain st')
         end
     | PRelayer _ _ _ _ _ => Ok s      (* RegisterRelayers: store.Set([]byte(address), ...), address is a valid bech32 string *)
     end.
@@ -544,7 +553,7 @@ Fixpoint gx_validate_clients (l : list (bytes * any client_state)) (acc : list (
 
 Definition gx_validate_cons_one (ty : ctype) (hc : height * any cons_state) : outcome unit :=
   let (h, a) := hc in
-  if (h_rev h =? 0) && (h_ht h =? 0) then Err
+  if (h_rev h =? 0) && (h_ht h =? 0) && negb (ctype_eqb ty TETH) && negb (ctype_eqb ty TBSC) then Err
   else match a with
        | AnyNil => Panic
        | AnyVal c =>
@@ -666,7 +675,8 @@ Fixpoint ga_validate_pairs (old : bool) (l : list ga_pair) (seen_erc20 seen_deno
             match denoms_fresh (gp_denoms p) seen_denom with
             | None => Err
             | Some seen =>
-                if negb (forallb valid_denom (gp_denoms p)) then Err
+                (* TokenPair.Validate: valid denominations that do not read as hex addresses *)
+                if negb (forallb (fun d => valid_denom d && negb (is_hex_address d)) (gp_denoms p)) then Err
                 else if negb (is_hex_address (gp_erc20 p)) then Err
                 else ga_validate_pairs old t (addr_key (gp_erc20 p) :: seen_erc20) seen
             end
